@@ -320,6 +320,18 @@ static void window_model(const std::string & dir, int nmax, Result & R)
                   bad = true;
                 }
               }
+              // past the window: the reader reports itself terminated and one more load delivers nothing (consumers that loop on
+              // is_terminated(), or on a count, instead of has_next_event())
+              if (!bad) {
+                R.transitions += 2;
+                if (!rd.is_terminated()) R.V(key + ":not-terminated", where + " calls " + trace + ": every window event is delivered and has_next_event() is false, but is_terminated() is false");
+                try {
+                  event extra;
+                  rd.load_next_event(extra);
+                  R.V(key + ":extra-load", where + " calls " + trace + "l: one more load_next_event() past the window delivers '" + extra.get_generator() + "'");
+                } catch (std::exception &) {
+                }
+              }
               if (R.samples.size() < 4 && N == nmax && nl >= 2 && pat == npat / 2) R.samples.push_back(where + " calls " + trace);
             } catch (std::exception & x) {
               R.V(key + ":exception", where + ": unexpected exception: " + x.what());
